@@ -101,6 +101,8 @@ def expr_batch(terms):
                 out["cov"]["evaluations"] += 1
                 if sim_v != rt_v:
                     out["cov"]["disagreements_checked"] += 1
+                    if len(out["violations"]) >= 60:
+                        continue          # plenty of triaged counterexamples from this program already
                     env = dict(zip(idx, vals))
                     ref_v = R.bits_of(R.ev(t, env)[0], w)
                     # triage: is this the recorded signed-$shift finding? re-interpret with arithmetic fill
